@@ -137,7 +137,11 @@ func hashEqualEdges(fn *ssa.Function) (eq, neq map[edge]bool, sites []*ssa.If) {
 	isID := func(v ssa.Value) bool {
 		return hasOrigin(v, func(o string) bool { return o == "field:IndexChunk.ID" || o == "elem:field:IndexChunk.ID" })
 	}
-	for _, b := range fn.Blocks {
+	var blocks []*ssa.BasicBlock
+	for _, g := range fnsDeep(fn) {
+		blocks = append(blocks, g.Blocks...)
+	}
+	for _, b := range blocks {
 		iff := lastIf(b)
 		if iff == nil {
 			continue
@@ -342,7 +346,7 @@ func c01SeedRehash(c *Ctx) {
 		return
 	}
 	hdrIf := lastIf(header)
-	c.verdict(instrDominates(W, hdrIf) && header.Dominates(A.Block()), key+":rehash-loop", hdrIf.Pos(),
+	c.verdict(instrDominates(W, hdrIf) && (header.Parent() == A.Parent() && header.Dominates(A.Block()) || instrDominates(hdrIf, A)), key+":rehash-loop", hdrIf.Pos(),
 		"the re-hash loop lies between the seed copy and selfSeed.add on every path", "selfSeed.add can be reached from the seed copy without passing the re-hash loop")
 	eq, _, sites := hashEqualEdges(w)
 	okW := edgesWhere(w, nilEdgeOf(func(o string) bool { return o == "call:desync.writeChunk#0" }))
